@@ -10,13 +10,16 @@ package main
 
 import (
 	"bufio"
+	"bytes"
 	"context"
 	"encoding/json"
 	"flag"
 	"fmt"
 	"os"
 	"path/filepath"
+	"runtime"
 	"sort"
+	"strconv"
 	"strings"
 	"sync"
 	"time"
@@ -31,6 +34,7 @@ type op struct {
 	B string `json:"b"`
 	C string `json:"c"`
 	D string `json:"d"`
+	X string `json:"x"` // token whose token-data entry expires and is swept right before this mutator
 }
 
 type truth struct {
@@ -150,6 +154,60 @@ type replay struct {
 }
 
 var bg = context.Background()
+
+// per-worker controlled clock for rbac_manager.go (auth.VerifNow, substituted by source overlay):
+// every replay goroutine has its own offset, so ageing one history does not age the others.
+var (
+	offMu   sync.RWMutex
+	offsets = map[uint64]*time.Duration{}
+)
+
+func goid() uint64 {
+	var buf [64]byte
+	n := runtime.Stack(buf[:], false)
+	f := bytes.Fields(buf[:n])
+	id, _ := strconv.ParseUint(string(f[1]), 10, 64)
+	return id
+}
+
+func workerNow() time.Time {
+	offMu.RLock()
+	o := offsets[goid()]
+	offMu.RUnlock()
+	if o == nil {
+		return time.Now()
+	}
+	return time.Now().Add(*o)
+}
+
+func advance(d time.Duration) {
+	offMu.RLock()
+	o := offsets[goid()]
+	offMu.RUnlock()
+	if o != nil {
+		*o += d
+	}
+}
+
+// expireTokenData realises Auth.tla's ExpireTokenData(t) on the real caches (TTL 30 s): everything
+// expires, t's token data is loaded early (probe request outside the matrix), its matrix decisions
+// are cached 20 s later from that data, and 15 s after that the real janitor sweeps: the token
+// data (35 s old) goes, the decisions (15 s old) stay.
+func (r *replay) expireTokenData(t string) {
+	ti := r.env.AM.VerifyToken(r.tokVal[t])
+	if ti == nil {
+		return
+	}
+	advance(31 * time.Second)
+	r.env.RM.CheckPermission(&auth.PermissionCheckRequest{TokenInfo: ti, Database: "verif_probe", Measurement: "", Permission: "read"})
+	advance(20 * time.Second)
+	for i := 0; i < nReq; i++ {
+		db, meas, perm := reqOf(i)
+		r.env.RM.CheckPermission(&auth.PermissionCheckRequest{TokenInfo: ti, Database: db, Measurement: meas, Permission: perm})
+	}
+	advance(15 * time.Second)
+	r.env.RM.VerifSweep()
+}
 
 func splitPerms(s string) []string { return strings.Split(s, ",") }
 
@@ -413,6 +471,9 @@ func runHistory(c *collector, tmp string, n int, mode string, h *history) {
 		if step > 0 {
 			o := h.Ops[step-1]
 			culprit = o.K
+			if o.X != "" {
+				r.expireTokenData(o.X)
+			}
 			if err := r.exec(o); err != nil {
 				// the model says the operation is enabled, the code refused it: not a verdict
 				c.add(c.dr, "operation-refused:"+o.K+":"+mode, witness{Mode: mode, Seed: h.Seed, Ops: h.Ops[:step], Step: step, Note: err.Error()})
@@ -540,11 +601,15 @@ func main() {
 		fatal(err)
 	}
 	defer os.RemoveAll(tmp)
+	auth.VerifNow = workerNow
 	c := &collector{vio: map[string]*finding{}, dr: map[string]*finding{}}
 	c.res.OpKinds = map[string]int{}
 	for _, h := range hs {
 		for _, o := range h.Ops {
 			c.res.OpKinds[o.K]++
+			if o.X != "" {
+				c.res.OpKinds["ExpireTokenData"]++
+			}
 		}
 	}
 	c.res.Histories = len(hs)
@@ -559,6 +624,11 @@ func main() {
 		wg.Add(1)
 		go func() {
 			defer wg.Done()
+			var off time.Duration
+			id := goid()
+			offMu.Lock()
+			offsets[id] = &off
+			offMu.Unlock()
 			for j := range jobs {
 				runHistory(c, tmp, j.n, j.mode, j.h)
 			}
